@@ -17,8 +17,8 @@ RULE = ("two real dilated wormholes; random interleavings of listener_for(name).
         "either side is recorded (its id). Non-trivial = at least one subchannel was opened and closed; "
         "distinct = scheduler decision traces.")
 ASSUMPTIONS = ["Noise stand-in", "bounded progress: 300 virtual seconds"]
-FLOORS = {"quick": {"subchannels": 500, "closes": 200, "writes_after_close": 100, "undeclared_opens": 40, "late_listens": 40},
-          "thorough": {"subchannels": 15000, "closes": 6000, "writes_after_close": 3000, "undeclared_opens": 1200, "late_listens": 1200}}
+FLOORS = {"quick": {"subchannels": 500, "closes": 200, "writes_after_close": 100, "writes_right_after_close": 300, "undeclared_opens": 40, "late_listens": 40},
+          "thorough": {"subchannels": 15000, "closes": 6000, "writes_after_close": 3000, "writes_right_after_close": 9000, "undeclared_opens": 1200, "late_listens": 1200}}
 NAMES = ["p0", "p1", "ünï-proto", "x" * 40]
 
 _created = []
@@ -57,6 +57,30 @@ def run_case(spec):
     drv = ScriptDriver(dp, rng, names=names, max_opens=4, max_writes=25, sizes=(1, 10, 300, 20000), late_listen=0.5,
                        half=spec["half"], close_prob=1.0, listen_names=listen_names)
     late_listens = sum(len(v) for v in drv.pending_listen.values())
+    # writes attempted right after a local close, while records of the peer may still be on their way
+    early_wac = []
+    wac_budget = [rng.randint(0, 8)]
+    base_actions = drv.actions
+
+    def actions(draining=False):
+        acts = base_actions(draining) if not drv.stop else []
+        if wac_budget[0] > 0:
+            for side in "AB":
+                closed = [p for p in drv.protos(side) if getattr(p, "closed_local", False)]
+                if closed:
+                    def wac(closed=closed):
+                        wac_budget[0] -= 1
+                        p = rng.choice(closed)
+                        kinds = [e[0] for e in p.events]
+                        try:
+                            p.transport.write(b"after close")
+                            early_wac.append((p.name, None, kinds[-3:], world.step - getattr(p, "close_step", world.step)))
+                        except Exception as e:
+                            early_wac.append((p.name, type(e).__name__, None, 0))
+                    acts.append((("app", side, "write-after-close"), wac))
+        return acts
+    drv.actions = actions
+    drv.drain_actions = lambda: actions(True)
     sch = Scheduler(world, drv, strategy=rng.choice(["random", "pct", "appfirst", "netfirst"]), chunking="whole")
     if spec["cuts"]:
         for _ in range(rng.randint(1, 2)):
@@ -194,6 +218,10 @@ def run_case(spec):
                 xk = [e[0] for e in x.events]
                 if not isinstance(x, HalfRecProto) and not isinstance(y, HalfRecProto) and "lost" not in xk:
                     viol.append({"key": "C13/closer-never-gets-connectionLost", "msg": "%s closed, saw %s" % (x.name, xk[-3:]), "witness": wit()})
+    for (name_, err, tail, age) in early_wac:
+        if err is None:
+            viol.append({"key": "C13/write-after-close-accepted", "msg": "%s: write() %d steps after the local close did not raise (events %s)" % (name_, age, tail), "witness": wit()})
+            break
     for (name_, err, tail) in wac_errors:
         if err is None:
             viol.append({"key": "C13/write-after-close-accepted", "msg": "%s: write() after close did not raise (events %s)" % (name_, tail), "witness": wit()})
@@ -208,10 +236,10 @@ def run_case(spec):
     nontrivial = trace_digest(sch) if (nsub and closes) else None
     benign = {"CloseForMissingSubchannelError", "DataForMissingSubchannelError"}
     return {"violations": viol, "nontrivial": nontrivial,
-            "counters": {"subchannels": nsub, "closes": closes, "writes_after_close": writes_after_close, "undeclared_opens": undeclared,
+            "counters": {"subchannels": nsub, "closes": closes, "writes_after_close": writes_after_close, "writes_right_after_close": len(early_wac), "undeclared_opens": undeclared,
                          "late_listens": late_listens, "half_protocols": sum(isinstance(p, HalfRecProto) for p in all_protos),
                          "opens": len(drv.opens), "notrans_seen": len(MON.notrans)},
-            "sets": {"write_after_close_errors": sorted({e for (_, e, _) in wac_errors if e}),
+            "sets": {"write_after_close_errors": sorted({e for (_, e, _) in wac_errors if e} | {e[1] for e in early_wac if e[1]}),
                      "logged_errors": sorted({e[0] for e in MON.errors}), "dilation_notrans": ["%s.%s/%s" % k for k in set(MON.notrans)]},
             "sample": {"spec": spec, "names": names, "expected": expected, "opens": [(r["side"], r["name"], bool(r["proto"])) for r in drv.opens],
                        "ids": {k: sorted(v) for k, v in ids.items()}, "events": {p.name: [e[0] for e in p.events][:8] for p in all_protos[:6]}}}
